@@ -626,15 +626,19 @@ def extendLoop (guard : Bool) (sid : Nat) : Nat → State → Loc → Nat → Ex
           match readLoc σ l with
           | .error e => .error e
           | .ok (.obj id) =>
-            -- a property that is this object itself would make it contain itself: the harness has refused such a
-            -- call before issuing it (`anyReaches`), so this branch is never taken in a checked history
-            if handleOf x = some id then .error .cyclic else
-            match indexKey guard σ l id k with
+            -- a property from which this object can be reached would make it contain itself: the harness has
+            -- refused such a call before issuing it (`anyReaches`), so `cyclic` is never returned here in a
+            -- checked history
+            match reaches (travFuel σ.heap) σ.heap id x with
             | .error e => .error e
-            | .ok (σ1, t) =>
-              match assignV σ1 t x with
+            | .ok true => .error .cyclic
+            | .ok false =>
+              match indexKey guard σ l id k with
               | .error e => .error e
-              | .ok σ2 => extendLoop guard sid n σ2 l (i + 1)
+              | .ok (σ1, t) =>
+                match assignV σ1 t x with
+                | .error e => .error e
+                | .ok σ2 => extendLoop guard sid n σ2 l (i + 1)
           | .ok _ => .error .badarg
 
 /-- the first statement of `extend`: `if (_type == NONE) { NEW_DIC(_o); _type = OBJ; }` -/
